@@ -240,41 +240,49 @@ def check_lifetimes(state, automaton):
     listening = {u for u, f in fss.items() if sm.is_listening_flow(f)}
     running = {u for u, f in fss.items() if sm.is_active_flow(f)}
 
-    def running_activator_owes(flow_id):
-        # another still-running flow that activated the same flow keeps it alive
-        for u in running | {x for x in listening}:
+    # I1 as a reachability statement: a listening flow is *supported* if its logical parent is a supported flow that has
+    # not ended, or if it is an activated instance that some other supported, not-ended flow still has registered as
+    # activated child (same flow id; the interpreter registers the reference instance with every activator).  main is
+    # supported by definition.  Whatever listens without support was started (transitively) only by flows that ended.
+    # (The first formulation walked up from each done flow and treated every flow below it as unsupported; an activated
+    # instance that hangs below the done flow but is ALSO activated by a flow outside, e.g. main, was wrongly discounted
+    # as a supporter - a false alarm seen once in 200 000 thorough runs.)
+    not_done = {u for u, f in fss.items() if not sm._is_done_flow(f)}
+    supported = {u for u in not_done if fss[u].flow_id == "main" or parents.get(u) is None or parents.get(u) not in fss}
+    changed = True
+    while changed:
+        changed = False
+        for u in not_done - supported:
             f = fss[u]
-            for cu in f.child_flow_uids:
-                c = fss.get(cu)
-                if c is not None and c.flow_id == flow_id and c.activated > 0:
-                    return True
-        return False
-
-    for u, f in fss.items():
-        if not sm._is_done_flow(f):
+            p = parents.get(u)
+            ok = p in supported and p in not_done
+            if not ok and f.activated > 0:
+                for su in supported:
+                    if su == u or su not in not_done:
+                        continue
+                    for cu in fss[su].child_flow_uids:
+                        ch = fss.get(cu)
+                        if ch is not None and ch.flow_id == f.flow_id and ch.activated > 0:
+                            ok = True
+                            break
+                    if ok:
+                        break
+            if ok:
+                supported.add(u)
+                changed = True
+    for cu in sorted(listening - supported):
+        c = fss[cu]
+        # name the nearest ended logical ancestor
+        node, anc, hops = parents.get(cu), None, 0
+        while node and node in fss and hops < 60:
+            if sm._is_done_flow(fss[node]):
+                anc = fss[node]
+                break
+            node = parents.get(node)
+            hops += 1
+        if anc is None:
             continue
-        # every still-listening descendant (through logical parent links) of a done flow is an orphan
-        for cu in listening:
-            c = fss[cu]
-            if c.flow_id == "main":
-                continue
-            # walk up through logical parents; an activated instance on the path that another
-            # running activator still owes keeps its whole subtree alive
-            node = cu
-            hops = 0
-            while node and hops < 60:
-                nf = fss.get(node)
-                if nf is None:
-                    break
-                p = parents.get(node)
-                if p == u:
-                    if not (nf.activated > 0 and _owed_by_other(state, nf, u, parents)):
-                        bad.append(("orphan-flow", "%s<-%s" % (f.flow_id, c.flow_id), "flow %s (%s) still listening although its ancestor %s is %s" % (c.flow_id, c.status.name, f.flow_id, f.status.name)))
-                    break
-                if nf.activated > 0 and p and _owed_by_other(state, nf, u, parents):
-                    break
-                node = p
-                hops += 1
+        bad.append(("orphan-flow", "%s<-%s" % (anc.flow_id, c.flow_id), "flow %s (%s) still listening although its ancestor %s is %s" % (c.flow_id, c.status.name, anc.flow_id, anc.status.name)))
     # I3: unfinished, unstopped, started actions must be listed by a still-listening flow
     owners = {}
     for u in listening:
